@@ -28,7 +28,10 @@ describe('C08',
          'binary vector operation inside a function that uses _unscaled_context mixes a scaled and a '
          'physical vector; (who) scale_to_* is only called from the two contexts and Group._transfer, '
          'in matched norm/phys pairs with the same mode; (neutral) the flags and early exits that switch scaling off '
-         'test exactly the neutral values ref == 1, ref0 == 0, res_ref == 1 and the sibling derivations agree. '
+         'test exactly the neutral values ref == 1, ref0 == 0, res_ref == 1 and the sibling derivations agree; '
+         '(unitscale) input scaling composed with a unit conversion equals convert_units(a0 + a1*n); (metaalias) '
+         'declared ref/ref0/res_ref arrays are never modified in place; (cache) cached adjoint solutions are '
+         'stored and replayed in one scaling state. '
          'Convergence values are not decided.',
          ['entry points (_apply_nonlinear, _solve_nonlinear, _apply_linear, _solve_linear, _linearize, '
           '_guess_nonlinear) are entered in the scaled state, as their docstrings state',
@@ -455,6 +458,11 @@ class FnState:
                             a = astx.arg(c, pos, kw)
                             if a is None:
                                 continue
+                            if isinstance(a, ast.Name):
+                                # vector list named in a temporary: out_vecs = [self._outputs]
+                                v, _d = self._value(at, a.id)
+                                if isinstance(v, (ast.List, ast.Tuple)):
+                                    a = v
                             if not isinstance(a, (ast.List, ast.Tuple)):
                                 raise AnalysisError(f'{fn.ident}: non-literal vector list in _unscaled_context')
                             for e in a.elts:
@@ -648,8 +656,11 @@ STATE_FILES = CORE_FILES + ['openmdao/solvers/nonlinear/nonlinear_block_gs.py',
                             'openmdao/solvers/linear/petsc_direct_solver.py']
 
 
-def _guards(st):
+def _guards(st, fs=None):
     """{(atom dump, truth)} implied at statement st by the tests of its enclosing ifs.
+
+    A test on a local that is an alias of an attribute/option (`flag = self.options['x']`) is recorded
+    under the aliased expression, so that guards of different functions on the same option correlate.
 
     Body side of `A and B` gives both atoms true, else side of `A or B` gives both false; other compound
     tests contribute nothing (sound: fewer facts only make fewer pairs infeasible)."""
@@ -666,6 +677,13 @@ def _guards(st):
             if not pol:
                 known(e, not val)
             return
+        if isinstance(e, ast.Name) and fs is not None:
+            nodes = fs.g.nodes_of(st)
+            if nodes:
+                v, _d = fs._value(nodes[0], e.id)
+                if v is not None and isinstance(v, (ast.Subscript, ast.Attribute)) and \
+                        (astx.path(v) or astx.src(v)).startswith('self.'):
+                    e = v
         out.add((astx.dump(e), val == pol))
     for a in astx.ancestors(st):
         if isinstance(a, ast.If):
@@ -718,7 +736,7 @@ def _param_alternatives(rs, fn, name):
             st_ = inner.state(copy=_is_copy_val(val), use_stmt=cst)
             if st_ is None:
                 return None
-            alts.append((st_, _guards(d.ast) | _guards(cst), inner.kind, f'{cf.name}:{d.ast.lineno}'))
+            alts.append((st_, _guards(d.ast, fs2) | _guards(cst, fs2), inner.kind, f'{cf.name}:{d.ast.lineno}'))
     return alts
 
 
@@ -772,7 +790,7 @@ def _vector_operands(rs, fn, st):
             return
         if isinstance(b, tuple) and b[0] == 'param':
             alts = _param_alternatives(rs, fn, b[1])
-            use_g = _guards(st)
+            use_g = _guards(st, fs)
             for s_, g_, k_, where in alts or []:
                 if not _conflict(g_, use_g):
                     found.append((f'{astx.src(e)} (captured at {where})', s_, k_))
@@ -1099,6 +1117,182 @@ def neutral(repo, out):
             out.unsure(cf, cf.node, '_chk_scale_factor shape not recognised')
 
 
+# --------------------------------------------------------------------------- unit conversion composed with scaling
+class _Arith:
+    """Evaluate + - * / over {name: float}."""
+
+    def __init__(self, env):
+        self.env = env
+
+    def ev(self, e):
+        if isinstance(e, ast.Constant) and isinstance(e.value, (int, float)) and not isinstance(e.value, bool):
+            return float(e.value)
+        if isinstance(e, ast.Name) and e.id in self.env:
+            return self.env[e.id]
+        if isinstance(e, ast.UnaryOp) and isinstance(e.op, ast.USub):
+            return -self.ev(e.operand)
+        if isinstance(e, ast.BinOp) and type(e.op) in (ast.Add, ast.Sub, ast.Mult, ast.Div):
+            a, b = self.ev(e.left), self.ev(e.right)
+            if isinstance(e.op, ast.Add):
+                return a + b
+            if isinstance(e.op, ast.Sub):
+                return a - b
+            if isinstance(e.op, ast.Mult):
+                return a * b
+            return a / b if b else float('nan')
+        raise AnalysisError(f'outside the evaluated fragment: {astx.src(e)}')
+
+
+@rule('C08.unitscale', floor=2)
+def unitscale(repo, out):
+    """Input scaling composed with a unit conversion is g(a0 + a1*n) for the conversion g of utils/units.py.
+
+    convert_units defines g(x) = (x + offset) * factor; a source with scaling x = a0 + a1*n therefore reaches
+    a unit-converted input as scale0 + scale1*n with scale0 = g(a0), scale1 = a1*factor.  The nonlinear
+    branch of DefaultVector._set_scaling and the adder-allocation mirror in Group._compute_root_scale_factors
+    are evaluated against that composition on sample values."""
+    cu = repo.func('openmdao/utils/units.py', 'convert_units')
+    rets = [r for r in astx.walk_stmts(cu.node.body) if isinstance(r, ast.Return) and
+            isinstance(r.value, ast.BinOp)]
+    if len(rets) != 1:
+        raise AnalysisError('convert_units: conversion formula not found')
+    gexpr = rets[0].value
+    vname = cu.node.args.args[0].arg
+
+    def g(x, factor, offset):
+        return _Arith({vname: x, 'factor': factor, 'offset': offset}).ev(gexpr)
+    samples = [(0.5, 2.0, 100.0, 3.0, 0.7), (-2.5, 1.0, 0.3048, -32.0, 1.3), (3.0, 4.0, 1000.0, 0.0, -0.4),
+               (1.0, 0.5, 1.8, 273.15, 2.0)]
+    fn = repo.func(DVEC, 'DefaultVector._set_scaling')
+    # which locals end up in the adder / scaler arrays
+    stores = {}
+    for x in astx.walk_stmts(fn.node.body):
+        if isinstance(x, ast.Assign) and isinstance(x.targets[0], ast.Subscript) and isinstance(x.value, ast.Name):
+            stores[astx.path(x.targets[0].value)] = x.value.id
+    add_l, scl_l = stores.get('adder_array'), stores.get('scaler_array')
+    # the nonlinear unit-converted arm: the block that assigns the adder local from the conversion offset
+    blocks = []
+    for x in astx.walk(fn.node):
+        for fld in ('body', 'orelse'):
+            blk = getattr(x, fld, None)
+            if isinstance(blk, list) and any(isinstance(y, ast.Assign) and len(y.targets) == 1 and
+                                             astx.path(y.targets[0]) == add_l and astx.mentions(y.value, 'offset')
+                                             for y in blk):
+                blocks.append(blk)
+    if add_l is None or scl_l is None or len(blocks) != 1:
+        out.unsure(fn, fn.node, 'unit-converted nonlinear arm (adder local computed from the conversion offset) '
+                   'not recognised')
+    else:
+        asg = {astx.path(x.targets[0]): x for x in blocks[0] if isinstance(x, ast.Assign) and len(x.targets) == 1}
+        if scl_l not in asg:
+            out.unsure(fn, asg[add_l], 'scaler local is not assigned next to the adder local')
+        else:
+            bad = None
+            for a0, a1, factor, offset, n in samples:
+                env = dict(a0=a0, a1=a1, factor=factor, offset=offset)
+                try:
+                    got = _Arith(env).ev(asg[add_l].value) + _Arith(env).ev(asg[scl_l].value) * n
+                except AnalysisError as e:
+                    out.unsure(fn, asg[add_l], str(e))
+                    bad = 'unsure'
+                    break
+                want = g(a0 + a1 * n, factor, offset)
+                if abs(got - want) > 1e-9 * max(1.0, abs(want)):
+                    bad = (env, n, got, want)
+                    break
+            if bad is None:
+                out.ok(fn, asg[add_l], f'{add_l} + {scl_l}*n == convert_units(a0 + a1*n) on {len(samples)} samples')
+            elif bad != 'unsure':
+                out.bad(fn, asg[add_l], f'with {bad[0]} a normalised value n={bad[1]} reaches the unit-converted input as '
+                        f'{bad[2]:g}, but convert_units(a0 + a1*n) = {bad[3]:g}: the input no longer holds the '
+                        'converted physical source value when the source has ref0/ref and the connection converts units',
+                        key='unitscale-compose')
+    # mirror used to decide whether an input adder must be allocated
+    gf = repo.func('openmdao/core/group.py', 'Group._compute_root_scale_factors')
+    mir = [x for x in astx.walk_stmts(gf.node.body) if isinstance(x, ast.Assign) and astx.path(x.targets[0]) == 'a0'
+           and astx.mentions(x.value, 'offset')]
+    if len(mir) != 1:
+        out.unsure(gf, gf.node, 'adder-allocation mirror `a0 = g(ref0)` not found')
+    else:
+        bad = None
+        for a0, a1, factor, offset, n in samples:
+            try:
+                got = _Arith(dict(ref0=a0, a0=a0, factor=factor, offset=offset)).ev(mir[0].value)
+            except AnalysisError as e:
+                out.unsure(gf, mir[0], str(e))
+                bad = 'unsure'
+                break
+            if abs(got - g(a0, factor, offset)) > 1e-9 * max(1.0, abs(got)):
+                bad = (a0, factor, offset, got)
+                break
+        if bad is None:
+            out.ok(gf, mir[0], 'adder-allocation test uses convert_units(ref0)')
+        elif bad != 'unsure':
+            out.bad(gf, mir[0], f'the adder-allocation test evaluates {bad[3]:g} for ref0={bad[0]}, factor={bad[1]}, '
+                    f'offset={bad[2]} but the adder stored by _set_scaling is convert_units(ref0)', key='unitscale-mirror')
+
+
+# --------------------------------------------------------------------------- declared references are not mutated
+META_KEYS = ('ref', 'ref0', 'res_ref')
+
+
+@rule('C08.metaalias', floor=3)
+def metaalias(repo, out):
+    """A ref/ref0/res_ref array read from variable metadata is never modified in place.
+
+    `a1 = ref; a1 -= ref0` writes through the alias into the declared metadata: every later consumer of the
+    same source (another connected input, the output vector's own scaling) sees a different ref."""
+    n = 0
+    for rel in CORE_FILES + [DVEC]:
+        if not repo.exists(rel):
+            continue
+        m = repo.module(rel)
+        for f in m.funcs.values():
+            reads = [x for x in astx.walk(f.node) if isinstance(x, ast.Subscript) and
+                     astx.const_str(x.slice) in META_KEYS and isinstance(getattr(x, 'ctx', None), ast.Load)]
+            if not reads:
+                continue
+            fs = None
+
+            def from_meta(at, name, depth=0):
+                if depth > 5:
+                    return False
+                for d in fs.rd.defs(at, name):
+                    if d is fs.g.entry or d.kind != 'stmt' or not isinstance(d.ast, ast.Assign):
+                        continue
+                    v = d.ast.value
+                    if len(d.ast.targets) != 1 or astx.path(d.ast.targets[0]) != name:
+                        continue
+                    if isinstance(v, ast.Subscript) and astx.const_str(v.slice) in META_KEYS:
+                        return True
+                    if isinstance(v, ast.Name) and from_meta(d, v.id, depth + 1):
+                        return True
+                return False
+            for st in astx.walk_stmts(f.node.body):
+                tgt = None
+                if isinstance(st, ast.AugAssign) and isinstance(st.target, ast.Name):
+                    tgt = st.target.id
+                elif isinstance(st, ast.AugAssign) and isinstance(st.target, ast.Subscript) and \
+                        isinstance(st.target.value, ast.Name):
+                    tgt = st.target.value.id
+                elif isinstance(st, ast.Assign) and isinstance(st.targets[0], ast.Subscript) and \
+                        isinstance(st.targets[0].value, ast.Name):
+                    tgt = st.targets[0].value.id
+                if tgt is None:
+                    continue
+                if fs is None:
+                    fs = FnState(repo, f)
+                nodes = fs.g.nodes_of(st)
+                if nodes and from_meta(nodes[0], tgt):
+                    out.bad(f, st, f'`{tgt}` can still be the array stored in the variable metadata '
+                            f'({"/".join(META_KEYS)}) when it is modified in place here: the declared scaling '
+                            'reference itself is changed', key='meta-alias-mutated')
+            n += 1
+            out.ok(f, f.node, f'{len(reads)} metadata read(s) of ref/ref0/res_ref, none written through')
+    if n < 3:
+        raise AnalysisError('readers of ref/ref0/res_ref metadata not found')
+
+
 # --------------------------------------------------------------------------- cached adjoint solutions
 CACHE_FILES = ['openmdao/solvers/linear/direct.py', 'openmdao/solvers/linear/scipy_iter_solver.py',
                'openmdao/solvers/linear/petsc_direct_solver.py', 'openmdao/solvers/linear/petsc_ksp.py']
@@ -1416,6 +1610,20 @@ selftest(
          "has_scaling = not (scalar_ref and scalar_ref0 and ref == 1.0 and ref0 == 0.0)"),
     Twin('twin-neutral-explicit-zero', 'openmdao/core/component.py', "            self._has_output_scaling |= np.any(ref0)\n            self._has_output_adder |= np.any(ref0)",
          "            self._has_output_adder |= np.any(ref0 != 0.0)\n            self._has_output_scaling |= np.any(0.0 != ref0)"),
+    Twin('twin-state-option-alias', 'openmdao/solvers/nonlinear/nonlinear_block_gs.py',
+         "        if use_aitken or not self.options['use_apply_nonlinear']:\n            # store a copy of the outputs\n            if not self.options['use_apply_nonlinear']:\n                with system._unscaled_context(outputs=[outputs]):\n                    outputs_n = outputs.asarray(copy=True)\n            else:\n                outputs_n = outputs.asarray(copy=True)\n",
+         "        use_apply = self.options['use_apply_nonlinear']\n        if not use_apply:\n            with system._unscaled_context(outputs=[outputs]):\n                outputs_n = outputs.asarray(copy=True)\n        elif use_aitken:\n            outputs_n = outputs.asarray(copy=True)\n"),
+    Mutant('state-option-alias-capture-swapped', 'openmdao/solvers/nonlinear/nonlinear_block_gs.py',
+           "        if use_aitken or not self.options['use_apply_nonlinear']:\n            # store a copy of the outputs\n            if not self.options['use_apply_nonlinear']:\n                with system._unscaled_context(outputs=[outputs]):\n                    outputs_n = outputs.asarray(copy=True)\n            else:\n                outputs_n = outputs.asarray(copy=True)\n",
+           "        use_apply = self.options['use_apply_nonlinear']\n        if use_apply:\n            with system._unscaled_context(outputs=[outputs]):\n                outputs_n = outputs.asarray(copy=True)\n        else:\n            outputs_n = outputs.asarray(copy=True)\n", 'C08.state'),
+    Twin('twin-enclose-named-vector-lists', _EC, "            with self._unscaled_context(outputs=[self._outputs]):\n                self._compute_wrapper()",
+         "            out_vecs = [self._outputs]\n            with self._unscaled_context(outputs=out_vecs):\n                self._compute_wrapper()"),
+    Mutant('unitscale-adder-factor-dropped', DVEC, "                            scale0 = (a0 + offset) * factor", "                            scale0 = a0 + offset * factor", 'C08.unitscale'),
+    Mutant('unitscale-scaler-no-factor', DVEC, "                            scale1 = a1 * factor", "                            scale1 = a1", 'C08.unitscale'),
+    Mutant('unitscale-mirror-wrong', 'openmdao/core/group.py', "                    a0 = (ref0 + offset) * factor", "                    a0 = ref0 * factor + offset", 'C08.unitscale'),
+    Twin('twin-unitscale-distributed', DVEC, "                            scale0 = (a0 + offset) * factor", "                            scale0 = a0 * factor + offset * factor"),
+    Mutant('metaalias-inplace-difference', 'openmdao/core/group.py', "                a1 = ref - ref0\n", "                a1 = ref\n                a1 -= ref0\n", 'C08.metaalias'),
+    Twin('twin-metaalias-fresh-array', 'openmdao/core/group.py', "                a1 = ref - ref0\n", "                a1 = np.subtract(ref, ref0)\n"),
     Twin('twin-vec-early-return', DVEC, "        data *= scaler\n        if adder is not None:  # nonlinear only\n            data += adder",
          "        data *= scaler\n        if adder is None:\n            return\n        data += adder"),
     Twin('twin-vec-unpack-elif', DVEC,
